@@ -21,6 +21,7 @@ import io
 import time
 
 REAL_GIT = shutil.which("git")
+RESERVED_DIRS = ("a", "b", "sub", "nest", "+x", "own")     # names used for (nested) SCM directories, never for files
 HERE = os.path.dirname(os.path.abspath(__file__))
 
 GIT_WRAPPER = r'''#!/bin/bash
@@ -417,6 +418,11 @@ class World:
                 f = f.split(" -> ")[1]
             f = f.strip('"')
             if any(f.rstrip("/") == n or f.startswith(n + "/") or n.startswith(f.rstrip("/") + "/") for n in nested):
+                extra = True
+                continue
+            if f.split("/")[0] in RESERVED_DIRS:
+                # leftovers of a nested SCM directory that is gone (files the user committed into this clone show
+                # up as deleted): part of what `git status` prints, not of the user's work in this clone
                 extra = True
                 continue
             fp = os.path.join(path, f)
